@@ -4,6 +4,7 @@ from __future__ import annotations
 import csv
 import math
 import os
+import shutil
 import tempfile
 
 import numpy as np
@@ -49,11 +50,13 @@ def table(draw):
     ng, nm, ns = draw(st.integers(1, 4)), draw(st.integers(1, 5)), draw(st.integers(1, 12))
     groups = draw(gen.names(ng, alphabet="abcXYZ019_ ."))
     groups = [g.lower() for g in groups]
-    metrics = draw(st.permutations(METRIC_NAMES))[:nm]
+    metrics = draw(st.lists(st.sampled_from(METRIC_NAMES), min_size=nm, max_size=nm, unique=True))
     subjects = draw(gen.names(ns, alphabet="abcXYZ019-_ ."))
     # case-sensitive uniqueness is enough for subjects, keep them as drawn
     cells = [[draw(cell) for _ in range(ng * nm)] for _ in range(ns)]
-    perm = list(draw(st.permutations(list(range(ns)))))
+    # a permutation drawn as sort keys (st.permutations is not supported by Hypothesis' fuzz_one_input provider)
+    keys = draw(st.lists(st.integers(0, 1000), min_size=ns, max_size=ns))
+    perm = sorted(range(ns), key=lambda i: (keys[i], i))
     # a history of read-only queries; the object must answer the same afterwards
     queries = draw(st.lists(st.tuples(st.sampled_from(["get", "get_nonone", "across", "summary_dict", "one_subject", "across_summary"]), st.integers(0, 7), st.integers(0, 7)), min_size=0, max_size=6))
     return {"groups": groups, "metrics": list(metrics), "subjects": subjects, "cells": cells, "perm": perm, "queries": [list(q) for q in queries]}
@@ -198,3 +201,48 @@ def check(case, stats):
         for f in os.listdir(d):
             os.remove(os.path.join(d, f))
         os.rmdir(d)
+
+
+def post_phase(tier, seed, stats):
+    """Thorough tier: coverage-guided fuzzing (atheris/libFuzzer) of the same strategy and oracle through
+    Hypothesis' fuzz_one_input; 8 independent campaigns, each with a fresh (empty) corpus directory."""
+    if tier != "thorough":
+        return None
+    import json
+    import subprocess
+    import sys
+
+    try:
+        subprocess.run([sys.executable, "-c", "import atheris"], check=True, capture_output=True)
+    except Exception:
+        stats.count("fuzz:atheris_unavailable")
+        return None
+    base = tempfile.mkdtemp(prefix="pv_c20fuzz_")
+    procs = []
+    try:
+        for i in range(8):
+            d = os.path.join(base, f"c{i}")
+            os.makedirs(os.path.join(d, "corpus"))
+            cmd = [sys.executable, "-W", "ignore", "-m", "pv.fuzz_stats", os.path.join(d, "replay.json"), os.path.join(d, "stats.json"),
+                   "-runs=6000", f"-seed={seed * 64 + i + 1}", "-len_control=0", "-max_len=8192", f"-artifact_prefix={d}/", os.path.join(d, "corpus")]
+            procs.append((d, subprocess.Popen(cmd, cwd=H.VERIF, stdout=subprocess.DEVNULL, stderr=subprocess.DEVNULL)))
+        viol = None
+        for d, p in procs:
+            try:
+                p.wait(timeout=3600)
+            except subprocess.TimeoutExpired:
+                p.kill()
+                stats.count("fuzz:campaign_timeout_inconclusive")
+            if os.path.exists(os.path.join(d, "stats.json")):
+                st_ = json.load(open(os.path.join(d, "stats.json")))
+                stats.count("fuzz:executions_reaching_the_oracle", st_["evaluations"])
+                stats.count("fuzz:distinct_nontrivial", st_["nontrivial"])
+                stats.count("fuzz:corpus_entries", len(os.listdir(os.path.join(d, "corpus"))))
+                stats.evaluations += st_["evaluations"]
+            if os.path.exists(os.path.join(d, "replay.json")) and viol is None:
+                r = json.load(open(os.path.join(d, "replay.json")))
+                viol = (r["case"], "[found by coverage-guided fuzzing] " + r["message"], None)
+        stats.count("fuzz:campaigns", len(procs))
+        return viol
+    finally:
+        shutil.rmtree(base, ignore_errors=True)
